@@ -1034,7 +1034,27 @@ func (g *Gen) callAnchorsInvoke(fr *Frame, st *State, c *ssa.CallCommon, args []
 	name := c.Method.Name()
 	for _, s := range con.Sets {
 		if s.Call == name {
-			g.ghostSet(fr, st, s, nil)
+			// the method's parameters by the names its signature or its own contract gives them, and as arg0..
+			extra := map[string]CV{}
+			sig := c.Method.Type().(*types.Signature)
+			for i := 0; i < sig.Params().Len() && i < len(args); i++ {
+				if args[i].T == "" {
+					continue
+				}
+				cv := CV{T: args[i].T, Ty: sig.Params().At(i).Type()}
+				if n := sig.Params().At(i).Name(); n != "" && n != "_" {
+					extra[n] = cv
+				}
+				extra[fmt.Sprintf("arg%d", i)] = cv
+			}
+			if mc := g.P.contracts[ifaceKey(c)]; mc != nil && len(mc.ParamNames) == sig.Params().Len()+1 {
+				for i := 0; i < sig.Params().Len() && i < len(args); i++ {
+					if n := mc.ParamNames[i+1]; n != "" && n != "_" && args[i].T != "" {
+						extra[n] = CV{T: args[i].T, Ty: sig.Params().At(i).Type()}
+					}
+				}
+			}
+			g.ghostSet(fr, st, s, extra)
 		}
 	}
 	for _, a := range con.Asserts {
